@@ -1139,7 +1139,13 @@ def check(run):
                     'harness stubs (SimpleNamespace/Fraction); harness/pdfread.py, the content-stream walker and PNG un-predictor '
                     'in impl_c13.py; Pillow and zlib as decoders of the embedded streams and of the sources',
                     'observation points wrapped from the worker process: draw.draw_replacedbox, draw.draw_background_image, '
-                    'RasterImage.draw (owner of each image Do)']
+                    'RasterImage.draw (owner of each image Do)',
+                    'translator tools/py2coq.py + interpreter coq/base/Py.v for the regenerated gen/GenReplaced.v and '
+                    'gen/GenReplacedBox.v (replaced_box_width/_height under their decorators, min_max_auto_replaced, '
+                    'replacedbox_layout); oracles of the C13_source_* theorems: image.get_intrinsic_size (answers the intrinsic '
+                    'triple) and the decorated block_level_width called at point 3 of replaced_box_width (sets box.width); '
+                    'max_width / max_height finite (float inf is outside the value domain of Py.v: the inf case is tied by '
+                    'the sizing-direct correspondence stream only)']
     run.assumptions += ['SVG rendering itself (viewBox-to-viewport mapping inside svg/) is not judged: for vector images only the used '
                         'size / background layer geometry is checked',
                         'pixel-level losslessness, Pillow, zlib: runtime monitor only (decoded XObject = Pillow decoding of the source)',
